@@ -111,7 +111,9 @@ def run_case(cid, case):
 def run(tier, seed):
     t0 = time.time()
     impl.warm()
+    global PREFIX_LEN
     L = 5 if tier == "quick" else 7
+    PREFIX_LEN = 2 if tier == "quick" else 3   # batches of 14^3 (quick) / 14^4 strings (thorough): a few seconds each
 
     def make_cases():
         for n in range(0, L + 1):
@@ -131,7 +133,7 @@ def run(tier, seed):
         for cid, p in itertools.chain(C16.corner_programs(), gen_forms.form_programs(),
                                       G.programs(G.FULL, 2, 3, seed, ("none", "coro", "for_actor"))):
             yield ("prog",) + tuple(cid), p
-    total = runner.explore(make_cases, run_case, timeout=120.0)
+    total = runner.explore(make_cases, run_case, timeout=30.0, max_hangs=6)
     return runner.finish(
         ID, LEVEL, tier, seed, total, t0,
         rule=f"all strings of length <= {L} over the 14 characters {ALPHABET!r} and of length <= {3 if tier == 'quick' else 4} over "
@@ -142,5 +144,5 @@ def run(tier, seed):
              "evaluations counts strings; non-trivial = string of length >= 2 or a program text",
         assumptions=["stripnl=False; Pygments' own preprocessing (CR LF / CR -> LF, BOM dropped, one newline appended) is applied "
                      "to the expected text as well, it is not the lexer's doing",
-                     "termination: 120 s watchdog per batch of <= 38416 strings"],
+                     "termination: 30 s watchdog per batch of <= 38416 strings (typical: under 3 s); exploration stops after 6 hangs"],
         bounds={"max_length": L})
